@@ -46,56 +46,54 @@ def _cfg(name: str, base: str, repl: dict, extra: str = '') -> str:
     return fname
 
 
-def tree(run, depth: int) -> list[list[dict]]:
+def tree(depth: int):
     """All histories of exactly `depth` calls (all API calls enabled)."""
     cfg = _cfg(f'tree{depth}', 'Defaults_tree.cfg', {'MaxOps': depth})
     res = run_tlc('Defaults', cfg, workers=1, timeout=3000)
-    run.add_tlc(res)
     behs = json_lines(res.stdout, 'BEH')
     if not behs or any(len(b) != depth + 1 for b in behs):
         raise MachineryError(f'tree of depth {depth}: {len(behs)} behaviours, unexpected shape')
-    return behs
+    return res, behs
 
 
-def defect_models(run):
-    """The invariants must reject the two defects the property is about (else they would be vacuous)."""
-    expect = {'ShareAbsent': ['INVARIANT NoSharing', 'INVARIANT DefaultStable', 'PROPERTY DefaultUntouched',
-                              'PROPERTY Isolated'],
-              'ShallowCopy': ['INVARIANT NoSharing', 'PROPERTY Isolated']}
-    for switch, props in expect.items():
-        for prop in props:
-            base = open(os.path.join(SPEC_DIR, 'Defaults_mc.cfg')).read()
-            lines = [ln for ln in base.splitlines() if not ln.startswith(('INVARIANT', 'PROPERTY'))]
-            lines = [f'  {switch} = TRUE' if ln.strip().startswith(switch) else ln for ln in lines]
-            fname = f'_gen_c12_defect_{switch}_{prop.split()[1]}.cfg'
-            with open(os.path.join(SPEC_DIR, fname), 'w') as f:
-                f.write('\n'.join(lines) + f'\n{prop}\n')
-            res = run_tlc('Defaults', fname, expect_ok=False)
-            violated = 'is violated' in res.stdout or 'Action property' in res.stdout
-            if res.ok or not violated:
-                raise MachineryError(f'defect model {switch}: TLC did not report a violation of {prop}:\n'
-                                     f'{res.error_text[:500]}')
-            run.count('defect_models_rejected')
+DEFECTS = [('ShareAbsent', 'INVARIANT DefaultStable'), ('ShallowCopy', 'PROPERTY Isolated'),
+           ('ShareAbsent', 'INVARIANT NoSharing'), ('ShareAbsent', 'PROPERTY DefaultUntouched'),
+           ('ShareAbsent', 'PROPERTY Isolated'), ('ShallowCopy', 'INVARIANT NoSharing')]
+
+
+def defect_model(switch: str, prop: str):
+    """The invariants must reject the defects the property is about (else they would be vacuous)."""
+    base = open(os.path.join(SPEC_DIR, 'Defaults_mc.cfg')).read()
+    lines = [ln for ln in base.splitlines() if not ln.startswith(('INVARIANT', 'PROPERTY'))]
+    lines = [f'  {switch} = TRUE' if ln.strip().startswith(switch) else ln for ln in lines]
+    fname = f'_gen_c12_defect_{switch}_{prop.split()[1]}.cfg'
+    with open(os.path.join(SPEC_DIR, fname), 'w') as f:
+        f.write('\n'.join(lines) + f'\n{prop}\n')
+    res = run_tlc('Defaults', fname, workers=2, expect_ok=False)
+    if res.ok or 'is violated' not in res.stdout:
+        raise MachineryError(f'defect model {switch}: TLC did not report a violation of {prop}:\n'
+                             f'{res.error_text[:500]}')
+    return res
 
 
 # --------------------------------------------------------------------------- replay on the real classes
 def _record(m: h.Member, insts: dict, op: dict) -> dict:
-    dflt = m.default_obj()
-    val, ref, ids = [], [], {}
+    dflt_ids = h.mutable_ids(m.default_obj(), set())
+    val, ref, owner = [], [], {}
     for i in range(1, N + 1):
         inst = insts.get(i)
         if inst is None:
             val.append('-')
             ref.append(i)
             continue
-        obj = m.value_obj(inst)
         val.append(m.token(inst))
-        if obj is None:
-            ref.append(i)
-        elif dflt is not None and obj is dflt:
+        ids = h.mutable_ids(m.value_obj(inst), set())
+        if ids & dflt_ids:
             ref.append(0)
         else:
-            ref.append(ids.setdefault(id(obj), i))
+            ref.append(min([owner[x] for x in ids if x in owner] or [i]))
+        for x in ids:
+            owner.setdefault(x, ref[-1])
     return {'act': op['act'], 'i': op.get('i', 0), 's': op.get('s', 0), 'v': op.get('v', '-'),
             'live': sorted(insts), 'val': val, 'ref': ref, 'fresh': m.token(m.new())}
 
@@ -162,10 +160,22 @@ def check(run, replay_path=None):
 
 
 def _check(run):
-    # 1. design: exhaustive model check + defect models
-    res = run_tlc('Defaults', 'Defaults_mc.cfg', coverage=True)
-    run.add_tlc(res, ALL_OPS)
-    defect_models(run)
+    # 1. design: exhaustive model check, defect models, trees of histories (TLC processes run side by side)
+    from concurrent.futures import ThreadPoolExecutor
+    d_obj, d_obj_inherited, d_first, d_inherited = run.pick((4, 3, 3, 2), (5, 5, 4, 3))
+    depths = sorted({d_obj, d_obj_inherited, d_first, d_inherited})
+    with ThreadPoolExecutor(max_workers=4) as pool:
+        f_mc = pool.submit(run_tlc, 'Defaults', 'Defaults_mc.cfg', coverage=True, workers=2)
+        f_trees = {d: pool.submit(tree, d) for d in reversed(depths)}
+        f_defects = [pool.submit(defect_model, sw, prop) for sw, prop in DEFECTS[:run.pick(2, len(DEFECTS))]]
+        run.add_tlc(f_mc.result(), ALL_OPS)
+        trees = {}
+        for d in depths:
+            res, trees[d] = f_trees[d].result()
+            run.add_tlc(res)
+        for f in f_defects:
+            f.result()
+            run.count('defect_models_rejected_by_tlc')
     run.note('exhaustive', True)
     run.note('model_constants', {'instances': N, 'written_values': 2, 'actions': ALL_OPS})
 
@@ -176,14 +186,12 @@ def _check(run):
     obj_pairs = [m for m in members if m.kind == 'obj']
     if len(obj_pairs) < 20 or len(members) < 200:
         raise MachineryError(f'reflection found only {len(obj_pairs)} object valued / {len(members)} pairs')
-    d_obj, d_first, d_inherited = run.pick((4, 3, 2), (5, 4, 3))
-    trees = {d: tree(run, d) for d in sorted({d_obj, d_first, d_inherited})}
     seen_descriptors = set()
     plan = []
     for m in members:
         first = id(m.prop) not in seen_descriptors
         seen_descriptors.add(id(m.prop))
-        depth = d_obj if m.kind == 'obj' else (d_first if first else d_inherited)
+        depth = (d_obj if first else d_obj_inherited) if m.kind == 'obj' else (d_first if first else d_inherited)
         plan.append((m, depth))
     run.note('pairs', {'total': len(members), 'object_valued_default': len(obj_pairs),
                        'list_valued': len(members) - len(obj_pairs),
@@ -243,41 +251,46 @@ def _check(run):
         by_trace.setdefault(ti, []).append((li, clause))
     run.note('rejected_distinct_traces', len(by_trace))
 
-    # 5. verdicts: per pair the earliest value-level failure (a change the application can see); sharing that was
-    #    only seen as identity is reported where a pair shows no value-level failure at all
-    value_fail: dict[tuple, dict] = {}
-    share_only: dict[tuple, dict] = {}
+    # 5. verdicts.  A rejected trace is described by the earliest change the application can see (value-level
+    #    clause) - or, if sharing was only seen as identity, by that - and by the call that established the sharing
+    #    (first no_sharing reject; "none" if no object identity was shared).  One violation per
+    #    (descriptor class, sharing call, failing call, clause); the affected (class, member) pairs are listed.
+    found: dict[tuple, dict] = {}
     for ti, rj in by_trace.items():
         rj.sort()
         val_rj = [(li, c) for li, c in rj if c in VALUE_CLAUSES]
         li, clause = (val_rj or rj)[0]
         rec = traces[ti][li]
         shared_at = next((x for x, c in rj if c == 'no_sharing'), None)
+        shared_by = traces[ti][shared_at]['act'] if shared_at is not None else 'none'
         for (mi, depth, bi) in users[ti]:
             m = plan[mi][0]
-            key = (m.descriptor, f'{m.defined_in}.{m.name}', rec['act'], clause)
-            bucket = value_fail if val_rj else share_only
-            cur = bucket.get(key)
-            if cur is None or len(trees[depth][bi]) < len(cur['behaviour']) or \
-                    (len(trees[depth][bi]) == len(cur['behaviour']) and li < cur['failing_record']):
-                bucket[key] = {'pair': m.ident, 'behaviour': trees[depth][bi], 'trace': traces[ti],
-                               'failing_record': li, 'first_shared_record': shared_at, 'classes': set()}
-            bucket[key].setdefault('classes', set())
-            bucket[key]['classes'].add(m.ident)
-    members_with_value_fail = {k[1] for k in value_fail}
-    for bucket, only_identity in ((value_fail, False), (share_only, True)):
-        for key, info in sorted(bucket.items()):
-            descriptor, member, act, clause = key
-            if only_identity and member in members_with_value_fail:
-                continue
-            descr = {'check': 'defaults', 'clause': clause, 'act': act, 'descriptor': descriptor, 'member': member}
-            info['classes'] = sorted(info['classes'])
-            hist_txt = ' ; '.join(_op_txt(o) for o in info['behaviour'][1:info['failing_record'] + 1])
-            rec = info['trace'][info['failing_record']]
-            run.violation(descr,
-                          f'{info["pair"]}: after [{hist_txt}] clause {clause} fails: values={rec["val"]} '
-                          f'identity={rec["ref"]} fresh={rec["fresh"]} (also: {len(info["classes"])} classes)',
-                          info)
+            key = (m.descriptor, shared_by, rec['act'], clause)
+            cur = found.get(key)
+            beh = trees[depth][bi]
+            if cur is None:
+                cur = found[key] = {'pair': None, 'members': set(), 'histories': 0}
+            cur['members'].add(m.ident)
+            cur['histories'] += 1
+            if cur['pair'] is None or (li, len(beh), m.ident) < (cur['failing_record'], len(cur['behaviour']),
+                                                                  cur['pair']):
+                cur.update({'pair': m.ident, 'behaviour': beh, 'trace': traces[ti], 'failing_record': li,
+                            'first_shared_record': shared_at})
+    # sharing that also shows as a value change is reported through the value change only
+    value_roots = {(k[0], k[1]) for k in found if k[3] in VALUE_CLAUSES}
+    for key, info in sorted(found.items()):
+        descriptor, shared_by, act, clause = key
+        if clause == 'no_sharing' and (descriptor, shared_by) in value_roots:
+            continue
+        descr = {'check': 'defaults', 'descriptor': descriptor, 'shared_by': shared_by, 'act': act, 'clause': clause}
+        info['members'] = sorted(info['members'])
+        hist_txt = ' ; '.join(_op_txt(o) for o in info['behaviour'][1:info['failing_record'] + 1])
+        rec = info['trace'][info['failing_record']]
+        run.violation(descr,
+                      f'{info["pair"]}: after [{hist_txt}] clause {clause} fails: values={rec["val"]} '
+                      f'identity={rec["ref"]} fresh={rec["fresh"]}; {len(info["members"])} (class, member) pairs '
+                      f'affected, e.g. {", ".join(x.split(".", 1)[1] for x in info["members"][:4])}',
+                      info)
     run.assumptions += [
         'abstract value of a member = canonical form (verif.mdibharness.canon) of the member value read through the '
         'real property descriptors; the table canonical form -> abstract value is learnt per pair on private copies '
